@@ -325,7 +325,7 @@ class Check:
             os.remove(f)
         for f in glob.glob(os.path.join(self.out, "*.vo")) + glob.glob(os.path.join(self.out, "*.glob")) + glob.glob(os.path.join(self.out, ".*.aux")):
             os.remove(f)
-        rc, out = sh([ZZV, name, "-out", self.out, "-seed", str(self.seed), "-tier", self.tier, "-repo", REPO] + list(extra_args), timeout=timeout)
+        rc, out = sh([ZZV, name, "-out", self.out, "-seed", str(self.seed), "-tier", self.tier, "-repo", REPO] + list(extra_args), timeout=(timeout * 2 if self.tier == "thorough" else timeout))
         label = corr_name or ("K: correspondence %s (model vs implementation on the same inputs)" % name)
         if rc != 0:
             self.oblige(label, False, out[-1500:])
